@@ -155,6 +155,16 @@ def work(item):
             sc = A.scale_vector(k, vu)
             out.append(decide(q, enc, f"{kind} scaling equals Cartesian scaling", [x - k * y for x, y in zip(to_cart(kind, pad(sc.components)), cu)], dom,
                               {"library": [str(x) for x in sc.components]}))
+            # the operand itself is left alone by every operation (a scaled COPY is returned): later uses of the same object see the same vector
+            before = [list(vu.components), list(vw.components)]
+            A.scale_vector(k, vu); A.vector_magnitude(vu); A.dot_vectors(vu, vw); A.scale_vector(2, vw)
+            try:
+                A.vector_unit(vu); A.project_vector(vw, vu)
+            except Exception:
+                pass
+            same_ops = [list(vu.components), list(vw.components)] == before
+            out.append({"name": f"{kind} operations leave their operands unchanged", "verdict": "discharged" if same_ops else "candidate",
+                        "why": f"operand components changed from {before} to {[list(vu.components), list(vw.components)]}", "trivial": True})
             # magnitude of the scaled vector (k may be negative: the scaled radial component then is): |k v| = |k| |v| >= 0
             enc = new_enc()
             dom = curv_domain(enc, kind, u)
@@ -190,6 +200,40 @@ def work(item):
             else:
                 out.append(decide(q, enc, f"scalar field Cartesian->{kind}: same value at the same physical point", [x - y for x, y in zip(val.args, to_cart(kind, p))], dom,
                                   {"value": str(val)[:120]}))
+            # a point filled in through its named accessors is the point built from the same coordinates (every setter writes its own slot,
+            # every getter reads it): finite, structural
+            acc = {"CYLINDRICAL": [("radius", "r"), ("azimuthal_angle", "theta"), ("height", "z")],
+                   "SPHERICAL": [("radius", "r"), ("azimuthal_angle", "theta"), ("polar_angle", "phi")]}[kind]
+            bad_acc = []
+            for variant in (0, 1):
+                pt = P(0, 0, 0)
+                try:
+                    for (long_, short_), val in zip(acc, p):
+                        setattr(pt, (long_, short_)[variant] if hasattr(pt, (long_, short_)[variant]) else long_, val)
+                    got_c = [pt.coordinate(i) for i in range(3)]
+                    got_a = [getattr(pt, (long_, short_)[variant] if hasattr(pt, (long_, short_)[variant]) else long_) for long_, short_ in acc]
+                    if got_c != list(p) or got_a != list(p):
+                        bad_acc.append(f"{['long', 'short'][variant]} accessors: coordinates {got_c}, read back {got_a}, assigned {list(p)}")
+                except Exception as ex_:
+                    bad_acc.append(f"accessors raise {type(ex_).__name__}: {ex_}")
+            # points created EMPTY and filled through the setters, several alive at once: each keeps its own coordinates
+            try:
+                from symplyphysics.core.points.cartesian_point import CartesianPoint
+                e1, e2, ec = P(), P(), CartesianPoint()
+                p2_ = [2 * p[0] + 1, p[1] / 2, p[2] + 3]
+                for (long_, _s), v1_, v2_ in zip(acc, p, p2_):
+                    setattr(e1, long_, v1_)
+                    setattr(e2, long_, v2_)
+                ec.x, ec.y, ec.z = 7, 8, 9
+                e3 = P()
+                got = ([e1.coordinate(i) for i in range(3)], [e2.coordinate(i) for i in range(3)], [ec.coordinate(i) for i in range(3)], [e3.coordinate(i) for i in range(3)])
+                want = (list(p), p2_, [7, 8, 9], [0, 0, 0])
+                if got != want:
+                    bad_acc.append(f"points created empty and filled through setters read back {got}, assigned {want}")
+            except Exception as ex_:
+                bad_acc.append(f"points created empty: {type(ex_).__name__}: {ex_}")
+            out.append({"name": f"{kind} point accessors write and read their own coordinate", "verdict": "candidate" if bad_acc else "discharged",
+                        "why": "; ".join(bad_acc), "trivial": True})
             # points given with fewer than three coordinates are zero-padded: the rebased field takes the value it has at the padded point
             for npt in (1, 2):
                 enc = new_enc()
@@ -279,6 +323,7 @@ try:
             ok = ok and close(A.dot_vectors(vu, vw), A.dot_vectors(vu.rebase(C), vw.rebase(C)))
             ms = A.vector_magnitude(A.scale_vector(k, vu))
             ok = ok and close(ms**2, k**2 * sum(x * x for x in cu)) and N(ms) >= 0
+            if list(vu.components) != list(u) or list(vw.components) != list(w): ok = False; print("an operation changed its operand:", list(vu.components), list(u))
             for n in (1, 2):
                 ok = ok and close(A.dot_vectors(Vector(list(u[:n]), B), vw), A.dot_vectors(Vector(list(u[:n]) + [0] * (3 - n), B), vw))
             if not ok: bad = True; print("products differ at", u, w)
@@ -287,6 +332,21 @@ try:
         x, y, z = C.coord_system.base_scalars(); q = B.coord_system.base_scalars()
         fc = x * y**2 - 3 * z + sp.sin(x) * z
         f = ScalarField.from_expression(fc, C).rebase(B)
+        acc = {{"CYLINDRICAL": [("radius", "r"), ("azimuthal_angle", "theta"), ("height", "z")], "SPHERICAL": [("radius", "r"), ("azimuthal_angle", "theta"), ("polar_angle", "phi")]}}[kind]
+        for variant in (0, 1):
+            pt = P(0, 0, 0); vals3 = [sp.Rational(5, 2), sp.Rational(2, 3), sp.Rational(3, 4)]
+            for (long_, short_), val in zip(acc, vals3):
+                setattr(pt, (long_, short_)[variant] if hasattr(pt, (long_, short_)[variant]) else long_, val)
+            if [pt.coordinate(i) for i in range(3)] != vals3: bad = True; print("accessors wrote", [pt.coordinate(i) for i in range(3)], "for", vals3)
+        from symplyphysics.core.points.cartesian_point import CartesianPoint
+        e1, e2, ec = P(), P(), CartesianPoint()
+        v1s, v2s = [sp.Rational(5, 2), sp.Rational(2, 3), sp.Rational(3, 4)], [sp.Integer(6), sp.Rational(1, 3), sp.Rational(15, 4)]
+        for (long_, _s), v1_, v2_ in zip(acc, v1s, v2s):
+            setattr(e1, long_, v1_); setattr(e2, long_, v2_)
+        ec.x, ec.y, ec.z = 7, 8, 9
+        e3 = P()
+        got = ([e1.coordinate(i) for i in range(3)], [e2.coordinate(i) for i in range(3)], [ec.coordinate(i) for i in range(3)], [e3.coordinate(i) for i in range(3)])
+        if got != (v1s, v2s, [7, 8, 9], [0, 0, 0]): bad = True; print("points created empty and filled through setters read back", got)
         for u in curvs:
             X = c11.to_cart(kind, u)
             if not close(f(P(*u)), fc.subs({{x: X[0], y: X[1], z: X[2]}})): bad = True; print("field C->", kind, u)
